@@ -521,8 +521,8 @@ class ListIsCompatibleMaxSize(_ListBase):
     ks = self_._element._key
     return implies(result, implies(acc_list(other, value), len(value) >= ks._min_value))
 
-  def native(self, m):
-    return self.mk(m, 'self')._is_compatible, [self.mk(m, 'other')], {}
+  # no `native`: the element specs are abstract (induction hypothesis), so a
+  # path cannot be cross-checked against concrete element specs.
 
   def replay(self, obligation, m):
     s, o = self.mk(m, 'self'), self.mk(m, 'other')
